@@ -164,6 +164,29 @@ class PathCtx:
 
 
 # -------------------------------------------------------------------------------------
+def assume_forall(fn, lo=None):
+    """assume (forall j. fn(j)) and instantiate it at every index term noted on this path (and at later ones):
+    array-property-fragment style saturation that z3's own instantiation does not always find"""
+    c = ctx()
+    j = z3.Int(f'j!q{next(c.counter)}')
+    c.assume(z3.ForAll([j], fn(j)))
+    c.__dict__.setdefault('foralls', []).append(fn)
+    for t in c.__dict__.setdefault('index_terms', []):
+        c.assume(fn(t))
+
+
+def note_index(*terms):
+    c = ctx()
+    its = c.__dict__.setdefault('index_terms', [])
+    for t in terms:
+        t = _int_t(t)
+        if any(t.eq(u) for u in its):
+            continue
+        its.append(t)
+        for fn in c.__dict__.setdefault('foralls', []):
+            c.assume(fn(t))
+
+
 def _t(x):
     """host value -> z3 term"""
     if isinstance(x, SInt) or isinstance(x, SBool):
@@ -185,6 +208,8 @@ def _int_t(x):
         return z3.IntVal(int(x))
     if isinstance(x, int):
         return z3.IntVal(x)
+    if isinstance(x, z3.ArithRef):
+        return x
     raise NeedConcrete(f"cannot lift {type(x).__name__} to an Int term")
 
 
